@@ -412,7 +412,7 @@ func (rp *repr) as(d *Doc, t *Type) *Node {
 		// same keys in the same order
 		vis := 0
 		for _, f := range t.Fields {
-			if !f.Unexported && !strings.Contains(f.Tag, `bexpr:"-"`) {
+			if !IsExtraField(f) {
 				vis++
 			}
 		}
@@ -422,8 +422,8 @@ func (rp *repr) as(d *Doc, t *Type) *Node {
 		n := &Node{T: t}
 		vi := 0
 		for _, f := range t.Fields {
-			if f.Unexported || strings.Contains(f.Tag, `bexpr:"-"`) {
-				n.Items = append(n.Items, rp.hiddenValue(f.Type))
+			if IsExtraField(f) {
+				n.Items = append(n.Items, rp.extraValue(f))
 				continue
 			}
 			if fieldKey(f) != d.Keys[vi] {
@@ -505,6 +505,30 @@ func goFieldName(k string, i int) string {
 	return strings.ToUpper(s[:1]) + s[1:]
 }
 
+// IsExtraField: fields the generator adds on top of the logical document:
+// Hidden* (hidden under both tag names), unexported, BHidden* (hidden under
+// the default tag only), AHidden* (hidden under the alternate tag only).
+func IsExtraField(f Field) bool {
+	return f.Unexported || strings.HasPrefix(f.Name, "Hidden") || strings.HasPrefix(f.Name, "BHidden") || strings.HasPrefix(f.Name, "AHidden")
+}
+
+// extraValue: content of an extra field. Fields hidden under BOTH tag names
+// and unexported fields draw from the hidden stream (they differ between the
+// two data of a C08 pair); fields hidden under one tag only are visible under
+// the other and therefore get content that depends on the name only.
+func (rp *repr) extraValue(f Field) *Node {
+	if f.Unexported || strings.HasPrefix(f.Name, "Hidden") {
+		return rp.hiddenValue(f.Type)
+	}
+	switch f.Type.K {
+	case KString:
+		return Str("vis-" + f.Name)
+	case KInt:
+		return Int(int64(len(f.Name)))
+	}
+	return NilOf(f.Type)
+}
+
 func (rp *repr) hiddenValue(t *Type) *Node {
 	switch t.K {
 	case KString:
@@ -540,23 +564,25 @@ func (rp *repr) obj(d *Doc, mode int) *Node {
 				if !rp.pol.Hidden {
 					return
 				}
-				switch r.Intn(4) {
+				var f Field
+				switch r.Intn(6) {
 				case 0:
-					name := fmt.Sprintf("Hidden%d", len(fields))
-					if !used[name] {
-						used[name] = true
-						ht := []*Type{TString, TInt, SliceOf(TString)}[r.Intn(3)]
-						fields = append(fields, Field{Name: name, Tag: `bexpr:"-" alt:"` + strings.ToLower(name) + `"`, Type: ht})
-						vals = append(vals, rp.hiddenValue(ht))
-					}
+					f = Field{Name: fmt.Sprintf("Hidden%d", len(fields)), Tag: `bexpr:"-" alt:"-"`, Type: []*Type{TString, TInt, SliceOf(TString)}[r.Intn(3)]}
 				case 1:
-					name := fmt.Sprintf("secret%d", len(fields))
-					if !used[name] {
-						used[name] = true
-						ht := []*Type{TString, TInt}[r.Intn(2)]
-						fields = append(fields, Field{Name: name, Type: ht, Unexported: true})
-						vals = append(vals, rp.hiddenValue(ht))
-					}
+					f = Field{Name: fmt.Sprintf("secret%d", len(fields)), Type: []*Type{TString, TInt}[r.Intn(2)], Unexported: true}
+				case 2:
+					name := fmt.Sprintf("BHidden%d", len(fields))
+					f = Field{Name: name, Tag: `bexpr:"-" alt:"` + strings.ToLower(name) + `"`, Type: []*Type{TString, TInt}[r.Intn(2)]}
+				case 3:
+					name := fmt.Sprintf("AHidden%d", len(fields))
+					f = Field{Name: name, Tag: `bexpr:"` + strings.ToLower(name) + `" alt:"-"`, Type: []*Type{TString, TInt}[r.Intn(2)]}
+				default:
+					return
+				}
+				if !used[f.Name] {
+					used[f.Name] = true
+					fields = append(fields, f)
+					vals = append(vals, rp.extraValue(f))
 				}
 			}
 			for i, k := range d.Keys {
